@@ -295,6 +295,9 @@ def apply_rules(text, relpath):
     text = sub('R5', r'^[ \t]*#\[error\(.*\)\][ \t]*\n', '', text, re.M)
     text = sub('R5', r'IntoPrimitive, TryFromPrimitive, ', '', text)
     text = sub('R5', r'#\[derive\(Error, ', '#[derive(', text)
+    # R7: visibility widening (`pub(crate)` -> `pub`): Verus requires contract expressions of a `pub fn` to be
+    # well-formed wherever the fn is visible; in a single-crate image widening changes no behaviour
+    text = sub('R7', r'\bpub\(crate\)', 'pub', text)
     # R1
     text = sub('R1', r'\|_\|', '|_vf|', text)
     # R2
@@ -311,6 +314,8 @@ def apply_rules(text, relpath):
     text = sub('R6', r'(\w+)\.into_iter\(\)\.filter_map\((\|x\| x\.(?:err|ok)\(\))\)\.collect\(\)',
                r'vf_filter_map_collect(\1, \2)', text)
     text = sub('R6', r'(\w+)\.iter\(\)\.any\(', r'vf_iter_any(&\1, ', text)
+    # D7: const initialiser with a shift: value axiomatised in contracts/avp.vfc, checked by rustc const-eval in vf_kani.rs
+    text = sub('D7', r'^([ \t]*)(const MAX_LENGTH: u16 = \(1 << Self::LENGTH_BITS\) - 1;)', r'\1#[verifier::external_body] \2', text, re.M)
     # D4: the phf table is outside the image (MessageType::try_read is external_body, decided by Kani)
     text = sub('D4', r'static MESSAGE_CODE_TO_TYPE.*?\n\};\n', '', text, re.S)
     return text
@@ -364,7 +369,7 @@ impl AVP {
 }
 impl WritableAVP for AVP {
     open spec fn wv(&self) -> crate::vf_spec::AvpV { self.av() }
-    fn write(&self, writer: &mut impl Writer) {
+    fn write<VfG0: Writer>(&self, writer: &mut VfG0) {
         match self {
 %s        }
     }
